@@ -24,6 +24,7 @@ open Pydap.Stream (Dec SR)
 def errMap : Err → Stream.Err
   | .short => .eof
   | .decode => .value
+  | .neglen => .negLen
   | .shape => .value
   | .fuel => .fuel
 
@@ -39,7 +40,7 @@ def readD (n : Nat) : Dec Bytes := .read n .ret
 def readLenD : Dec Nat :=
   .read 4 fun p =>
     if p.length ≠ (dtypeItemsize Gen.DAP2_ARRAY_LENGTH_NUMPY_TYPE).getD 0 then .fail .eof
-    else if beNat p ≥ 2147483648 then .fail .value
+    else if beNat p ≥ 2147483648 then .fail .negLen
     else .ret (beNat p)
 
 /-- one string: length word, `read(k)` (k may be 0), `.decode("ascii")`, `read(-k % 4)` (may be 0) -/
